@@ -1,4 +1,4 @@
-import MgpuProofs.C16Epoch
+import MgpuProofs.C16Fair
 /-! # C16 — property theorems (address translation forwards every access faithfully, exactly once)
 
 All statements are about `run c ops`: the tick-exact model of the address translator started from
@@ -108,9 +108,9 @@ theorem at_flush (c : Cfg) (ops : List Op) :
 reply that arrives while the bottom port is full, a flush in the middle) in which accesses are
 received, forwarded to *different* physical pages, answered, and one is discarded by the flush. -/
 def demoOps : List Op :=
-  [.access 1 0x1004 ⟨false, 4, [], []⟩, .tick, .drainTr, .access 2 0x1008 ⟨false, 4, [], []⟩, .tick,
+  [.access 1 0x1004 ⟨false, 4, [], [], false⟩, .tick, .drainTr, .access 2 0x1008 ⟨false, 4, [], [], false⟩, .tick,
    .drainTr, .trsp ⟨0, 0x11000⟩, .tick, .trsp ⟨1, 0x12000⟩, .tick, .drainBot, .tick, .tick,
-   .brsp ⟨0, some [1, 2, 3, 4]⟩, .tick, .access 1 0x2000 ⟨true, 2, [7, 8], [true, false]⟩, .tick,
+   .brsp ⟨0, some [1, 2, 3, 4]⟩, .tick, .access 1 0x2000 ⟨true, 2, [7, 8], [true, false], false⟩, .tick,
    .ctl .flush, .tick, .drainBot, .brsp ⟨1, some [5, 6, 7, 8]⟩, .tick]
 
 example :
@@ -145,7 +145,7 @@ a translation reply and in-flight records waiting for a memory response, i.e. th
 theorem at_no_loss (c : Cfg) (ops : List Op) :
     let s := run c ops
     (s.ctlIn = [] → mu (tick c s).1 ≤ mu s ∧ ((tick c s).2 = true → mu (tick c s).1 < mu s)) ∧
-    (s.flushing = false → s.ctlIn = [] → 0 < c.width →
+    (s.flushing = false → s.ctlIn = [] →
       s.topOut.length < c.width → s.botOut.length < c.width → s.trOut.length < c.width →
       (s.botIn ≠ [] ∨ s.trIn ≠ [] ∨ s.topIn ≠ [] ∨ ∃ t ∈ s.txs, t.done = true) →
       (tick c s).2 = true ∧ mu (tick c s).1 < mu s) ∧
@@ -156,7 +156,8 @@ theorem at_no_loss (c : Cfg) (ops : List Op) :
   have hd : DInv s := run_dinv c ops
   have hne : ∀ t ∈ s.txs, t.reqs ≠ [] := fun t ht => ((run_minv c ops).tx t ht).1
   refine ⟨tick_dec c s, ?_, ?_, ?_, ?_⟩
-  · intro hfl hctl hw h1 h2 h3 hact
+  · intro hfl hctl h1 h2 h3 hact
+    have hw : 0 < c.width := by omega
     have hflag : (tick c s).2 = true := by
       obtain ⟨n, hn⟩ : ∃ n, c.width = n + 1 := ⟨c.width - 1, by omega⟩
       have hpipe : (runPipeline c s).2 = true := by
@@ -267,29 +268,33 @@ unless a flush is still waiting for its restart, nothing at all is left anywhere
 or some move of the translator or of an honest neighbour is enabled that strictly decreases the
 world measure: a tick *for which the component is awake*, the service answering a lookup, the
 memory answering a request, or a neighbour taking a message from an outgoing buffer. -/
-theorem at_every_access_answered (c : Cfg) (e : Env) (w : CW) (hwid : 0 < c.width) (hr : Reach c e w) :
+theorem at_every_access_answered (c : Cfg) (e : Env) (w : CW) (hr : Reach c e w) :
     ((∀ p ∈ w.s.received, p.2 = w.s.epoch → ∃ x ∈ w.s.answered, x.top = p.1) ∧
       (w.s.flushing = false → wmu w = 0)) ∨
-    ∃ o, o.internal = true ∧ wmu (hstep c e w o) < wmu w :=
-  stuck_free hwid hr
+    ∃ o, o.internal = true ∧ wmu (hstep c e w o) < wmu w := by
+  rcases stuck_free' hr with h | h
+  · exact Or.inl h.1
+  · exact Or.inr h
 
 /-- **Termination of every fair run.** From any reachable world: a run of productive moves has at
 most `wmu w` steps; when no productive move is left the world is settled (`Settled`: all accepted
 accesses answered, nothing left unless flushing); and such a run exists. So any schedule that keeps
 making enabled productive moves ends, after at most `wmu w` of them, with every accepted access
 answered. -/
-theorem at_world_terminates (c : Cfg) (e : Env) (w : CW) (hwid : 0 < c.width) (hr : Reach c e w) :
+theorem at_world_terminates (c : Cfg) (e : Env) (w : CW) (hr : Reach c e w) :
     (∀ os, ProdSeq c e w os → os.length ≤ wmu w) ∧
     (∀ os, ProdSeq c e w os → (¬ ∃ o, Productive c e (hrun c e w os) o) → Settled (hrun c e w os)) ∧
     (∃ os, ProdSeq c e w os ∧ Settled (hrun c e w os)) := by
-  refine ⟨?_, ?_, prodseq_exists hwid _ w hr (Nat.le_refl _)⟩
+  refine ⟨?_, ?_, ?_⟩
   · intro os h
     have := prodseq_len c e os w h
     omega
   · intro os _ hno
-    rcases stuck_free hwid (reach_hrun hr os) with h | h
-    · exact h
+    rcases stuck_free' (reach_hrun hr os) with h | h
+    · exact h.1
     · exact absurd h hno
+  · obtain ⟨os, h1, h2⟩ := prodseq_exists' _ w hr (Nat.le_refl _)
+    exact ⟨os, h1, h2.1⟩
 
 /-- **Nothing regresses in a closed run.** Whatever the component and its honest neighbours do, in
 whatever order — idle ticks, refused deliveries and empty retrievals included — the world measure
@@ -304,7 +309,7 @@ theorem at_world_monotone (c : Cfg) (e : Env) (w : CW) (os : List HOp) (h : ∀ 
 component can complete the work, and then every access accepted since the last flush has exactly
 one answer; it carries the access's own ID and the memory's data for a request with the access's
 own payload at the page-table entry of the access's OWN (PID, page) plus its page offset. -/
-theorem at_end_to_end (c : Cfg) (e : Env) (w : CW) (hwid : 0 < c.width) (hr : Reach c e w) :
+theorem at_end_to_end (c : Cfg) (e : Env) (w : CW) (hr : Reach c e w) :
     ∃ os, ProdSeq c e w os ∧
       ∀ p ∈ (hrun c e w os).s.received, p.2 = (hrun c e w os).s.epoch →
         ∃ x ∈ (hrun c e w os).s.answered, x.top = p.1 ∧ x.rsp.rspTo = p.1.id ∧
@@ -312,10 +317,10 @@ theorem at_end_to_end (c : Cfg) (e : Env) (w : CW) (hwid : 0 < c.width) (hr : Re
           ∃ b : BReq, b.pl = p.1.pl ∧
             b.paddr = e.pt p.1.pid (pageId c.lg p.1.vaddr) + p.1.vaddr % 2 ^ c.lg ∧
             x.rsp.data = e.md b := by
-  obtain ⟨os, h1, h2⟩ := prodseq_exists hwid _ w hr (Nat.le_refl _)
+  obtain ⟨os, h1, h2⟩ := prodseq_exists' _ w hr (Nat.le_refl _)
   refine ⟨os, h1, ?_⟩
   intro p hp he
-  obtain ⟨x, hx, hxp⟩ := h2.1 p hp he
+  obtain ⟨x, hx, hxp⟩ := h2.1.1 p hp he
   obtain ⟨hnd, hall⟩ := at_world_faithful c e _ (reach_hrun hr os)
   obtain ⟨k1, _, l, _, _, _, k4, k5, k6⟩ := hall x hx
   refine ⟨x, hx, hxp, by rw [k1, hxp], ?_, l.breq, by rw [k4, hxp], by rw [k5, hxp], k6⟩
@@ -331,9 +336,9 @@ asleep every pipeline stage and the control handler are blocked (`Quiet`) and a 
 nothing at all — so no work is ever left waiting for a tick that is not coming. This holds
 *without exception*, also after the tick that records a reply while the bottom port is full
 (state changed, `false` returned): see `reply_while_full_wakes`. -/
-theorem no_lost_wakeup (c : Cfg) (e : Env) (w : CW) (hwid : 0 < c.width) (hr : Reach c e w)
+theorem no_lost_wakeup (c : Cfg) (e : Env) (w : CW) (hr : Reach c e w)
     (ha : w.awake = false) : Quiet c w.s ∧ tick c w.s = (w.s, false) :=
-  ⟨reach_quiet hwid hr ha, quiet_tick c w.s (reach_winv hr).noBad (reach_quiet hwid hr ha)⟩
+  ⟨reach_quiet' hr ha, quiet_tick c w.s (reach_winv hr).noBad (reach_quiet' hr ha)⟩
 
 /-- The generic lemma "a tick that reports no progress leaves the state unchanged" (DESIGN §1.3),
 restricted to the `done` flags of the transactions. -/
@@ -351,27 +356,37 @@ theorem tick_idle_unchanged_refuted : ¬ tick_idle_unchanged_full := by
 
 /-- What does hold: when the awake component's tick reports no progress, the *next* tick would be a
 no-op (`tick_idle_unchanged_partial`), i.e. going to sleep loses nothing. -/
-theorem tick_idle_unchanged_partial (c : Cfg) (e : Env) (w : CW) (hwid : 0 < c.width) (hr : Reach c e w)
-    (ha : w.awake = true) (hf : (tick c w.s).2 = false) :
+theorem tick_idle_unchanged_partial (c : Cfg) (e : Env) (w : CW) (hr : Reach c e w)
+    (hf : (tick c w.s).2 = false) :
     tick c (tick c w.s).1 = ((tick c w.s).1, false) := by
-  have hr' := Reach.step w .tick hr
-  have := (no_lost_wakeup c e _ hwid hr' (by simp [hstep, ha, hf])).2
-  simpa [hstep, ha] using this
+  cases ha : w.awake with
+  | true =>
+    have hr' := Reach.step w .tick hr
+    have := (no_lost_wakeup c e _ hr' (by simp [hstep, ha, hf])).2
+    simpa [hstep, ha] using this
+  | false =>
+    -- asleep: the tick is already a no-op (`no_lost_wakeup`)
+    have h := (no_lost_wakeup c e w hr ha).2
+    rw [h]; exact h
 
 /-- **The reply-while-bottom-full case decided.** If the component is asleep while a completed
 transaction still holds requests (the state that tick leaves behind), then the bottom port's
 outgoing buffer is exactly full; the next retrieval from it wakes the component
 (`NotifyPortFree`), and the tick that follows makes progress. So the component can not stay asleep
 with that work pending once the memory side takes a request. -/
-theorem reply_while_full_wakes (c : Cfg) (e : Env) (w : CW) (hwid : 0 < c.width) (hr : Reach c e w)
+theorem reply_while_full_wakes (c : Cfg) (e : Env) (w : CW) (hr : Reach c e w)
     (ha : w.awake = false) (t : Tx) (ht : t ∈ w.s.txs) (hdone : t.done = true) :
     w.s.botOut.length = c.width ∧ (hstep c e w .drainBot).awake = true ∧
     (tick c (hstep c e w .drainBot).s).2 = true := by
+  have hwid : 0 < c.width := by
+    cases hc : c.width with
+    | zero => have := (reach_w0 hc hr).txs; rw [this] at ht; simp at ht
+    | succ n => omega
   obtain ⟨ops, hops⟩ := reach_run hr
   have hm : MInv c w.s := hops ▸ run_minv c ops
   have hb : BInv c w.s := hops ▸ run_binv c ops
   have hn : NInv w.s := hops ▸ run_ninv c ops
-  have hq := (reach_quiet hwid hr ha).p
+  have hq := (reach_quiet' hr ha).p
   have hfull : w.s.botOut.length = c.width := by
     unfold parseQ at hq
     have hsome := popFirst_some_of_mem isDrainable _ t ht (by
@@ -457,14 +472,14 @@ def demoEnv : Env := ⟨fun pid vp => 0x100000 * pid + vp, fun b => if b.pl.isWr
 /-- two PIDs on the same virtual page; the second reply arrives while the bottom port is full and
 the component goes to sleep on it -/
 def demoH1 : List HOp :=
-  [.access 1 0x1004 ⟨false, 4, [], []⟩, .tick, .drainTr, .ansT 0, .tick,
-   .access 2 0x1008 ⟨false, 4, [], []⟩, .tick, .drainTr, .ansT 0, .tick, .tick]
+  [.access 1 0x1004 ⟨false, 4, [], [], false⟩, .tick, .drainTr, .ansT 0, .tick,
+   .access 2 0x1008 ⟨false, 4, [], [], false⟩, .tick, .drainTr, .ansT 0, .tick, .tick]
 
 /-- … the memory takes the first request (wake-up), the first access completes; then flush, restart, a
 new access, and only then the memory answers the request forwarded before the flush -/
 def demoH2 : List HOp :=
   demoH1 ++ [.drainBot, .tick, .ansM 0, .tick, .drainTop, .drainBot, .flush, .tick, .drainCtl,
-    .restart, .tick, .drainCtl, .access 1 0x2010 ⟨false, 4, [], []⟩, .tick, .ansM 0]
+    .restart, .tick, .drainCtl, .access 1 0x2010 ⟨false, 4, [], [], false⟩, .tick, .ansM 0]
 
 /-- every world of the demo runs below is reachable, so the closed-world theorems apply to them -/
 theorem demo_reach (os : List HOp) : Reach ⟨1, 12⟩ demoEnv (hrun ⟨1, 12⟩ demoEnv {} os) :=
@@ -507,21 +522,20 @@ is asleep (`no_lost_wakeup`) with a completed transaction pending (`reply_while_
 not settled, so `at_every_access_answered` yields a productive move -/
 example : ∃ o, o.internal = true ∧
     wmu (hstep ⟨1, 12⟩ demoEnv (hrun ⟨1, 12⟩ demoEnv {} demoH1) o) < wmu (hrun ⟨1, 12⟩ demoEnv {} demoH1) := by
-  rcases at_every_access_answered ⟨1, 12⟩ demoEnv _ (by decide) (demo_reach demoH1) with h | h
+  rcases at_every_access_answered ⟨1, 12⟩ demoEnv _ (demo_reach demoH1) with h | h
   · exact absurd (h.2 (by decide)) (by decide)
   · exact h
 
-example := no_lost_wakeup ⟨1, 12⟩ demoEnv _ (by decide) (demo_reach demoH1) (by decide)
+example := no_lost_wakeup ⟨1, 12⟩ demoEnv _ (demo_reach demoH1) (by decide)
 
 example : ∃ t ∈ (hrun ⟨1, 12⟩ demoEnv {} demoH1).s.txs, t.done = true := by decide
 
 /-- the tick before the component fell asleep: awake, reports no progress, yet marks the transaction done -/
-example := tick_idle_unchanged_partial ⟨1, 12⟩ demoEnv _ (by decide) (demo_reach (demoH1.take 9))
-  (by decide) (by decide)
+example := tick_idle_unchanged_partial ⟨1, 12⟩ demoEnv _ (demo_reach (demoH1.take 9)) (by decide)
 
 /-- the flushing tick of `demoH2` (op 19): awake, epoch changes -/
 example := at_flush_world_step ⟨1, 12⟩ demoEnv (hrun ⟨1, 12⟩ demoEnv {} (demoH2.take 18)) (by decide) (by decide)
 
-example := at_end_to_end ⟨1, 12⟩ demoEnv _ (by decide) (demo_reach demoH2)
+example := at_end_to_end ⟨1, 12⟩ demoEnv _ (demo_reach demoH2)
 
 end C16
